@@ -44,7 +44,8 @@ const char* occaKernelHash(occaKernel kernel) {
 
   std::string hashStr = hash.getString();
 
-  const int charCount = (int) hashStr.size();
+  // Include the terminating '\0': the result is read as a C string
+  const size_t charCount = hashStr.size() + 1;
   char *c_str = (char*) ::malloc(charCount);
   ::memcpy(c_str, hashStr.c_str(), charCount);
 
@@ -59,7 +60,8 @@ const char* occaKernelFullHash(occaKernel kernel) {
 
   std::string hashStr = hash.getFullString();
 
-  const int charCount = (int) hashStr.size();
+  // Include the terminating '\0': the result is read as a C string
+  const size_t charCount = hashStr.size() + 1;
   char *c_str = (char*) ::malloc(charCount);
   ::memcpy(c_str, hashStr.c_str(), charCount);
 
